@@ -15,7 +15,6 @@ if go test -count=1 ./... > /tmp/evalmut.$$.log 2>&1; then echo "suite: PASS wit
 if [ -f "$D/demo_test.go" ]; then
   cp "$D/demo_test.go" ./zz_demo_test.go
   if go test -count=1 -run 'Seeded' ./... > /tmp/evalmut.$$.log 2>&1; then echo "demo: PASS with mutant (demo does not demonstrate)"; else echo "demo: FAIL with mutant (good)"; fi
-  git stash -q -- $(git diff --name-only) 2>/dev/null || true
   git apply -R "$D/patch.diff" 2>/dev/null || git checkout -q -- $(git diff --name-only)
   if go test -count=1 -run 'Seeded' ./... > /tmp/evalmut.$$.log 2>&1; then echo "demo: PASS without mutant (good)"; else echo "demo: FAIL without mutant"; tail -5 /tmp/evalmut.$$.log; fi
   rm -f zz_demo_test.go
